@@ -21,6 +21,8 @@ Record tdb := mkTdb {
   b_buf : list N                (* buffered values *)
 }.
 
+Definition sumwN (cs : list (N * N)) : N := fold_right (fun c acc => snd c + acc) 0 cs.
+
 Definition MINK : N := zN (nth 0 GenTDigest.LIT_make 0%Z).
 Definition tdb_new (k : N) : tdb := mkTdb k false PINF NINF [] 0 [].
 Definition tdb_total (s : tdb) : N := b_cw s + N.of_nat (length (b_buf s)).
